@@ -623,6 +623,46 @@ def build_clone(args):
     return '\n'.join(out) + '\n'
 
 
+def build_fieldseq(args, features):
+    """//@fieldseq <file> <Struct> <field_fn> <seq_fn>: spec functions listing the struct's fields IN DECLARATION ORDER
+    (generated from the repository's struct definition on every run: the 'field order' oracle of C13/C19)."""
+    path, sname, ffn, sfn = args[0], args[1], args[2], args[3]
+    src, rtoks, item = locate(path, 'struct', sname, features)
+    # fields: `pub name : usize ,` at depth 1 of the struct body
+    a, b = item.body
+    fields = []
+    k = a + 1
+    while k < b:
+        if is_p(rtoks[k], '#'):
+            k, _ = skip_attrs(rtoks, k)
+            continue
+        if is_id(rtoks[k], 'pub'):
+            k += 1
+            continue
+        if rtoks[k].kind == 'id' and k + 1 < b and is_p(rtoks[k + 1], ':'):
+            name = rtoks[k].text
+            j = k + 2
+            ty = []
+            while j < b and not is_p(rtoks[j], ','):
+                ty.append(rtoks[j].text)
+                j += 1
+            if ''.join(ty) != 'usize':
+                raise AssembleError('fieldseq: field %s of %s is not usize' % (name, sname))
+            fields.append(name)
+            k = j + 1
+            continue
+        k += 1
+    out = ['/// field number i of %s in declaration order (generated from %s)' % (sname, path),
+           'pub open spec fn %s(dp: &%s, i: int) -> nat {' % (ffn, sname)]
+    for n, f in enumerate(fields):
+        out.append('    %sif i == %d { dp.%s as nat }' % ('' if n == 0 else 'else ', n, f))
+    out.append('    else { 0 }')
+    out.append('}')
+    out.append('pub spec const %s_N: nat = %d;' % (ffn.upper(), len(fields)))
+    out.append('pub open spec fn %s(dp: &%s) -> Seq<nat> { Seq::new(%d, |i: int| %s(dp, i)) }' % (sfn, sname, len(fields), ffn))
+    return '\n'.join(out) + '\n'
+
+
 def build_from_variants(args, features):
     path, ename = args[0], args[1]
     opts = dict(a.split('=', 1) for a in args[2:])
@@ -748,6 +788,9 @@ def assemble(fragments, features, out_path):
                 i += 1
             elif d == 'from_variants':
                 emit(build_from_variants(rest, features))
+                i += 1
+            elif d == 'fieldseq':
+                emit(build_fieldseq(rest, features))
                 i += 1
             elif d == 'iffeature':
                 # //@iffeature <feat> : next line kept only if feature enabled
